@@ -149,7 +149,7 @@ Proof.
       apply (reuse_kind s (ECall t c (Some f)) s'); [auto|split; auto|]. eapply O2; eauto.
   - (* ESpawnBegin *)
     destruct (t_stack (thr s p)) as [|top rest] eqn:Hs; [destruct A|].
-    destruct A as [A|[A|[A|A]]]; try (inversion A; subst; simpl in Fl; inversion Fl; subst; left; rewrite Hs; split; [left; auto|discriminate]; fail).
+    destruct A as [A|[A|[A|A]]]; try (inversion A; subst; simpl in Fl; discriminate); try (inversion A; subst; simpl in Fl; inversion Fl; subst; left; rewrite Hs; split; [left; auto|discriminate]; fail).
     + destruct reuse as [x|]; [|destruct A].
       assert (f = x).
       { simpl in A. destruct A as [A|[A|[]]]; inversion A; subst; simpl in Fl; inversion Fl; auto. }
@@ -171,7 +171,7 @@ Proof.
   - (* EReturn *)
     destruct (t_stack (thr s t)) as [|x rest] eqn:Hs; [destruct A|].
     assert (Hx : In x (x :: rest)) by (left; auto).
-    destruct A as [A|[A|[A|A]]]; try (inversion A; subst; simpl in Fl; inversion Fl; subst; left; rewrite Hs; split; [auto|discriminate]; fail).
+    destruct A as [A|[A|[A|A]]]; try (inversion A; subst; simpl in Fl; discriminate); try (inversion A; subst; simpl in Fl; inversion Fl; subst; left; rewrite Hs; split; [auto|discriminate]; fail).
     + destruct (f_mark (fr s x)) eqn:Hm; [destruct A|].
       assert (f = x).
       { destruct A as [A|[A|[]]]; inversion A; subst; simpl in Fl; inversion Fl; auto. }
@@ -220,9 +220,11 @@ Proof.
   - pose proof (acc_frame_cases _ _ _ _ _ _ I J H1 A1 Fl) as K1.
     pose proof (acc_frame_cases _ _ _ _ _ _ I J H2 A2 Fl) as K2.
     destruct w1.
-    + exfalso. eapply (kinds_conflict s (actor e1) (actor e2)); eauto.
-    + destruct w2; auto. exfalso. eapply (kinds_conflict s (actor e2) (actor e1)); eauto.
-  - destruct l; try discriminate. simpl in Ex. exfalso. eapply no_run_conflict; eauto.
+    + exfalso. apply (kinds_conflict s (actor e1) (actor e2) f w2 I J Inj N K1 K2).
+    + destruct w2; auto. exfalso.
+      assert (N' : actor e2 <> actor e1) by auto.
+      apply (kinds_conflict s (actor e2) (actor e1) f false I J Inj N' K2 K1).
+  - destruct l; try discriminate. simpl in Ex. exfalso. apply (no_run_conflict id0 tr s e1 e2 s1 s2 r w1 w2 R Inj H1 H2 N Ex A1 A2).
 Qed.
 
 (* packaged for Props.v *)
@@ -260,3 +262,7 @@ Proof.
   intros id0 tr s t s' f r t2 R H A P N Re. destruct (reach_inv _ _ _ R) as [I J].
   pose proof (step_frame_stable _ _ _ t2 f I J H N Re) as E. rewrite E in P. congruence.
 Qed.
+
+Lemma reachable_frames_stable : forall id0 tr s e s' t2 f,
+  run true (init id0) tr = Some s -> step true s e = Some s' -> t2 <> actor e -> reach s t2 f -> fr s' f = fr s f.
+Proof. intros id0 tr s e s' t2 f R. destruct (reach_inv _ _ _ R). apply step_frame_stable; auto. Qed.
